@@ -117,9 +117,9 @@ def run_path(ob, prefix, want_sample=False):
     ctx.want_sample = want_sample
     Ctx.cur = ctx
     try:
-        signal.setitimer(signal.ITIMER_REAL, ob.path_timeout)
+        signal.setitimer(signal.ITIMER_PROF, ob.path_timeout)
         out = ob.fn(ctx, **ob.params)
-        signal.setitimer(signal.ITIMER_REAL, 0)
+        signal.setitimer(signal.ITIMER_PROF, 0)
         if out is None:
             out = {'k': 'harness-error', 'why': 'harness returned None'}
     except PathAbort:
@@ -129,7 +129,7 @@ def run_path(ob, prefix, want_sample=False):
     except OutOfBound as e:
         out = {'k': 'cut', 'why': str(e)[:200]}
     except PathTimeout:
-        out = {'k': 'timeout', 'why': 'path did not finish within %ss' % ob.path_timeout}
+        out = {'k': 'timeout', 'why': 'path did not finish within %ss of CPU time' % ob.path_timeout}
     except SolverUnknown:
         out = {'k': 'unknown', 'why': 'branch decision'}
     except RecursionError:
@@ -137,7 +137,7 @@ def run_path(ob, prefix, want_sample=False):
     except Exception:
         out = {'k': 'harness-error', 'why': traceback.format_exc()[-1500:]}
     finally:
-        signal.setitimer(signal.ITIMER_REAL, 0)
+        signal.setitimer(signal.ITIMER_PROF, 0)
         Ctx.cur = None
     if ctx.flags:
         out['flags'] = sorted(ctx.flags)
@@ -242,7 +242,7 @@ def _on_alarm(signum, frame):
 
 
 def _worker(obs, tq, rq):
-    signal.signal(signal.SIGALRM, _on_alarm)
+    signal.signal(signal.SIGPROF, _on_alarm)
     try:
         import resource
         resource.setrlimit(resource.RLIMIT_CORE, (0, 0))
@@ -270,7 +270,7 @@ def explore_all(obs, log=None, serial=False):
     {name: Agg}."""
     results = {ob.name: Agg(ob.name) for ob in obs}
     if serial or NWORKERS <= 1:
-        signal.signal(signal.SIGALRM, _on_alarm)
+        signal.signal(signal.SIGPROF, _on_alarm)
         for ob in obs:
             t0 = time.time()
             agg, left = _explore_local(ob, [[]], ob.max_wall, ob.max_paths)
